@@ -10,6 +10,7 @@ props = sys.argv[2:] or claims.READY
 # development cache (never used by a registered check): the verdict of one check on one patch depends on the patch, /repo's
 # HEAD, the engine, the rule module of the property and the rule modules it imports
 DEPS = {"C01": ["c13"], "C04": ["c01", "c13", "c16", "c17"], "C07": ["c19"], "C16": ["c17"], "C17": ["c16"]}
+DEPS_ORDER_LAST = ()
 CACHE = os.environ.get("VERIF_TRY_CACHE", "/var/tmp/verif-trycache")
 def _dig(paths):
     h = hashlib.sha256()
@@ -55,16 +56,35 @@ try:
     if r.returncode != 0:
         print("patch does not apply:", r.stdout[:300]); sys.exit(2)
     env = dict(os.environ); env["VERIF_EVIDENCE_OUT"] = os.path.join(d, "ev.json")
+    results = {}
+    if len(todo) > 2 and os.environ.get("VERIF_TRY_MULTI", "1") == "1":
+        # one process for all properties: a lender's rule groups run once for all the checks that borrow from it
+        order = sorted(todo, key=lambda q: (q in DEPS_ORDER_LAST, q))
+        r = subprocess.run([os.path.join(selftest.VERIF, "vcheck"), "--multi", ",".join(order), tier, "--repo", d],
+                           stdout=subprocess.PIPE, stderr=subprocess.STDOUT, text=True, env=env)
+        cur, buf = None, []
+        for l in r.stdout.splitlines():
+            if l.startswith("@@BEGIN "):
+                cur, buf = l.split()[1], []
+            elif l.startswith("@@END ") and cur:
+                results[cur] = (int(l.split()[2]), "\n".join(buf))
+                cur = None
+            elif cur:
+                buf.append(l)
     for p in props:
         if p not in todo:
             show(p, keys[p]["rc"], keys[p]["out"])
             continue
-        r = subprocess.run([os.path.join(selftest.VERIF, "vcheck"), p, tier, "--repo", d], stdout=subprocess.PIPE, stderr=subprocess.STDOUT, text=True, env=env)
-        show(p, r.returncode, r.stdout)
+        if p in results:
+            rc, out = results[p]
+        else:
+            r = subprocess.run([os.path.join(selftest.VERIF, "vcheck"), p, tier, "--repo", d], stdout=subprocess.PIPE, stderr=subprocess.STDOUT, text=True, env=env)
+            rc, out = r.returncode, r.stdout
+        show(p, rc, out)
         if keys[p] and keys[p] == cache_key(p, tier):      # nothing the verdict depends on was edited while the check ran
             os.makedirs(CACHE, exist_ok=True)
             tmp = os.path.join(CACHE, "%s.%d.tmp" % (keys[p], os.getpid()))
-            json.dump({"rc": r.returncode, "out": "\n".join(r.stdout.splitlines()[:40])}, open(tmp, "w"))
+            json.dump({"rc": rc, "out": "\n".join(out.splitlines()[:40])}, open(tmp, "w"))
             os.replace(tmp, os.path.join(CACHE, keys[p] + ".json"))
 finally:
     shutil.rmtree(d, ignore_errors=True)
